@@ -32,6 +32,7 @@ MISSED = {
     "C13-d": "handlers were always built with `SqliteZoneHandler::new`: new sub-property `configured_from_files` builds them with `try_from_config` (zone file, key files, journal), half of the cases after a restart from the journal",
     "C15-d": "the client sub-property only served direct answers with `preserve_intermediates = false`: alias answers (CNAME chain + target in one response) and both settings are generated now",
     "C19-c": "resolutions were strictly sequential: every third query is now resolved twice concurrently on the same recursor and both results are judged",
+    "C20-d": "escaped dots were generated in the middle of a label only: labels now also begin or end with one (a relative name written `j\\.` ends in a dot character without being absolute)",
 }
 
 
